@@ -1452,7 +1452,7 @@ pub fn build_rec(tape: &[u16]) -> GrammarSpec {
     // is rule 2 + k
     let n = |k: usize| SymUse::plain(Sym::N(2 + k));
     let mut body: Vec<(String, Option<String>, Vec<AltSpec>)> = vec![];
-    let shape = c.pick(11);
+    let shape = c.pick(13);
     match shape {
         7 | 9 | 10 => {
             // the same optional symbol before and after a mandatory one (the trailing one may
@@ -1488,7 +1488,7 @@ pub fn build_rec(tape: &[u16]) -> GrammarSpec {
             body.push(("Node".to_string(), None, vec![mk(vec![n(1), tsym(T_ID), n(1)]), mk(vec![tinline(T_KW0 + 1, false), n(1), n(1)])]));
             body.push(("Opt".to_string(), None, vec![mk(vec![tsym(T_NUM)]), mk(vec![])]));
         }
-        0..=2 => {
+        0..=2 | 11 | 12 => {
             // element <-> hand written @vec rule
             let elem_first = c.pick(2) == 0;
             let (ei, li) = if elem_first { (0, 1) } else { (1, 0) };
